@@ -24,10 +24,10 @@ type Case struct {
 // (the cases themselves run in parallel on a pool of oracle processes).
 type rec struct{ acts []func() }
 
-func (c *rec) Eval(kind, key string)  { c.acts = append(c.acts, func() { r.Eval(kind, key) }) }
-func (c *rec) Hit(kind string)        { c.acts = append(c.acts, func() { r.Hit(kind) }) }
-func (c *rec) TieOK()                 { c.acts = append(c.acts, func() { r.TieOK() }) }
-func (c *rec) Sample(v interface{})   { c.acts = append(c.acts, func() { r.Sample(v) }) }
+func (c *rec) Eval(kind, key string) { c.acts = append(c.acts, func() { r.Eval(kind, key) }) }
+func (c *rec) Hit(kind string)       { c.acts = append(c.acts, func() { r.Hit(kind) }) }
+func (c *rec) TieOK()                { c.acts = append(c.acts, func() { r.TieOK() }) }
+func (c *rec) Sample(v interface{})  { c.acts = append(c.acts, func() { r.Sample(v) }) }
 func (c *rec) PropFail(key, what string, cs Case) {
 	c.acts = append(c.acts, func() { r.PropFail(key, what, cs) })
 }
@@ -139,6 +139,8 @@ func runCase(o *vlib.Oracle, c *rec, cs Case) {
 		caseEntropy(o, c, cs)
 	case "seed":
 		caseSeed(o, c, cs)
+	case "seednfkd":
+		caseSeedNfkd(o, c, cs)
 	case "wallet":
 		caseWallet(o, c, cs)
 	default:
